@@ -29,9 +29,13 @@ V3 == <<{<<49024, 0>>, <<16416, 0>>, <<16416, 1>>, <<32704, 0>>, <<0, 1>>, <<327
 T4 == [be |-> 1, areas |-> <<A(1, 6, 1, 1, 0, 1, 0)>>,
        regs |-> <<R(2, 1, 2, <<0, 1, 0, 0>>, <<0, 0, 0, 0>>, <<0, 1, 0, 0>>), R(3, 6, 2, <<5>>, <<0>>, <<5>>)>>]
 V4 == <<{<<0, 0, 65535, 65535>>, <<0, 1, 0, 0>>, <<65535, 65535, 65535, 65535>>}, {<<4>>, <<5>>, <<32768>>}>>
-Tables == <<T1, T2, T3, T4>>
-Vals == <<V1, V2, V3, V4>>
-Word2 == <<10, 3, 16416, 5>>      \* one more word per table for the longer blocks
+(* T5 little-endian: a write-only area (reads as zero) with a gap between its registers, directly followed by a readable one *)
+T5 == [be |-> 0, areas |-> <<A(1, 3, 0, 1, 0, 1, 0), A(4, 2, 1, 1, 0, 1, 0)>>,
+       regs |-> <<R(0, 1, 3, <<0>>, <<100>>, <<42>>), R(0, 3, 0, <<0>>, <<0>>, <<7>>), R(1, 4, 0, <<0, 0>>, <<0, 0>>, <<1, 2>>)>>]
+V5 == <<{<<100>>, <<101>>}, {<<65535>>}, {<<3, 4>>}>>
+Tables == <<T1, T2, T3, T4, T5>>
+Vals == <<V1, V2, V3, V4, V5>>
+Word2 == <<10, 3, 16416, 5, 9>>      \* one more word per table for the longer blocks
 Which == CHOOSE i \in 1..Len(Tables) : Tables[i] = d
 WordsOf(i) == UNION {{v[k] : k \in 1..Len(v)} : v \in UNION {Vals[i][j] : j \in 1..Len(Vals[i])}} \cup {0, 65535}
 Window(t) == MaxOf(0, t.areas[1].base - 1)..(AEnd(t.areas[NA(t)]))
@@ -65,6 +69,36 @@ BitOpsExact == [][ev'.op \in {"bitset", "bitclr"} /\ inited /\ rc(ev') = OK =>
                      IN /\ IsUnsigned(r.ty)
                         /\ RegValue(d, mem', r) = IF ev'.op = "bitset" THEN WOr(old, v) ELSE WAndNot(old, v)
                         /\ \A j \in 1..NR(d) : j # h + 1 => RegValue(d, mem', d.regs[j]) = RegValue(d, mem, d.regs[j])]_<<mcvars, ev>>
+
+(* C03 restated without the operators the actions are built from *)
+ReadsFlat == [][ev'.op = "bread" /\ inited =>
+                   LET addr == ev'.a[1]
+                       n == ev'.a[2]
+                       o == ev'.o
+                       mapped(a) == \E i \in 1..NA(d) : d.areas[i].base <= a /\ a < d.areas[i].base + d.areas[i].size
+                       areaof(a) == CHOOSE i \in 1..NA(d) : d.areas[i].base <= a /\ a < d.areas[i].base + d.areas[i].size
+                   IN /\ (o[1] = OK <=> \A k \in 0..n - 1 : mapped(addr + k))
+                      /\ (o[1] = OK => /\ Len(o) = 2 + n
+                                       /\ \A k \in 0..n - 1 : o[3 + k] = IF d.areas[areaof(addr + k)].rd = 1
+                                                                        THEN mem[areaof(addr + k)][addr + k - d.areas[areaof(addr + k)].base + 1] ELSE 0)
+                      /\ (o[1] # OK => /\ o[1] = NOENTRY /\ ~mapped(o[2]) /\ addr <= o[2] /\ o[2] < addr + n
+                                       /\ \A a \in addr..o[2] - 1 : mapped(a))]_<<mcvars, ev>>
+IterationExact == [][ev'.op = "foreach" /\ inited /\ ev'.a[2] > 0 =>
+                        LET addr == ev'.a[1]
+                            off == ev'.a[2]
+                            script == Drop(ev'.a, 3)
+                            o == ev'.o
+                            seen == Drop(o, 2)                                                     \* handles (C numbering) in call order
+                            over == {h \in 0..NR(d) - 1 : d.regs[h + 1].addr < addr + off /\ addr < d.regs[h + 1].addr + Size(d.regs[h + 1].ty)}
+                            ret(k) == IF k <= Len(script) THEN script[k] ELSE 0
+                        IN /\ \A k \in 1..Len(seen) : seen[k] \in over                             \* only registers overlapping the range
+                           /\ \A k \in 1..Len(seen) - 1 : seen[k] < seen[k + 1]                      \* ascending
+                           /\ \A h \in over : (Len(seen) > 0 /\ h < seen[Len(seen)]) => \E k \in 1..Len(seen) : seen[k] = h    \* none skipped
+                           /\ \A k \in 1..Len(seen) - 1 : ret(k) = 0                                \* it went on only after a zero result
+                           /\ (Len(seen) = 0 => over = {} /\ o[1] = OK)
+                           /\ (Len(seen) > 0 /\ ret(Len(seen)) = 0 => o[1] = OK /\ \A h \in over : h <= seen[Len(seen)])   \* ran to the end
+                           /\ (Len(seen) > 0 /\ ret(Len(seen)) > 0 => o[1] = OK)
+                           /\ (Len(seen) > 0 /\ ret(Len(seen)) < 0 => o[1] = REFUSED /\ o[2] = d.regs[seen[Len(seen)] + 1].addr)]_<<mcvars, ev>>
 
 (* E1 plumbing: the initial state is "no table"; tinit carries the flattened description *)
 KeyOf(dd, ii, mm, tt, cc) == ToString(<<IF dd = <<>> THEN 0 ELSE CHOOSE i \in 1..Len(Tables) : Tables[i] = dd, ii, mm, SetToSortSeq(tt, LAMBDA x, y : x < y), cc>>)
